@@ -721,7 +721,15 @@ func (c *Client) BatchOpt(ctx context.Context, payloads []kmip.OperationPayload,
 	}
 	// Check batch item count
 	if int(resp.Header.BatchCount) != len(resp.BatchItem) || len(resp.BatchItem) != len(payloads) {
-		return nil, errors.New("Batch count mismatch")
+		// A server that rejects a request as a whole answers with a single failed item, whatever
+		// the number of items requested: keep what the failed items say in the error.
+		err := errors.New("Batch count mismatch")
+		for _, bi := range resp.BatchItem {
+			if e := bi.Err(); e != nil {
+				err = errors.Join(err, e)
+			}
+		}
+		return nil, err
 	}
 	return resp.BatchItem, nil
 }
